@@ -163,6 +163,7 @@ var opNames = []string{
 	"thrift.SetMany(fork)",
 	"thrift.DescriptorToPathNode(Shuffled)",
 	"proto.Load+Marshal(pooled)",
+	"proto.Load(lazy)+Marshal(pooled,flat message)",
 	"proto.MarshalTo(Small)",
 	"idl.lookups",
 }
@@ -371,6 +372,7 @@ func newFixture() (*fixture, error) {
 	wrapped, _ := thrift.WrapBinaryBody(tbin.Bytes(resp), "M", thrift.REPLY, 0, 1)
 	in["thrift-resp-msg"] = wrapped
 	in["pb-nested"] = protoReq(2)
+	in["pb-flat"] = protoReq(1)
 	in["thrift-sparse-without-70"] = tbin.Bytes(tbin.Struct(tbin.F(1, tbin.Str("only-a"))))
 	in["thrift-reply-exception"] = tbin.Bytes(tbin.Struct(tbin.F(100, tbin.Struct(tbin.F(1, tbin.Str("boom"))))))
 	{
@@ -676,6 +678,17 @@ func newFixture() (*fixture, error) {
 		tree := pgeneric.NewPathNode()
 		tree.Node = pgeneric.NewNode(proto.MESSAGE, in["pb-nested"])
 		if err := tree.Load(true, &pgeneric.Options{}, f.preqT); err != nil {
+			return nil, err
+		}
+		out, err := tree.Marshal(&pgeneric.Options{})
+		pgeneric.FreePathNode(tree)
+		return out, err
+	})
+	add("proto.Load(lazy)+Marshal(pooled,flat message)", func() ([]byte, error) {
+		// a pooled tree that may have served a recursive load before is loaded lazily with ANOTHER message
+		tree := pgeneric.NewPathNode()
+		tree.Node = pgeneric.NewNode(proto.MESSAGE, in["pb-flat"])
+		if err := tree.Load(false, &pgeneric.Options{}, f.preqT); err != nil {
 			return nil, err
 		}
 		out, err := tree.Marshal(&pgeneric.Options{})
